@@ -34,6 +34,7 @@ def run(ctx):
     leaves = m["leaves"] + [h for h in mneg["leaves"] if any(o["neg"] for o in h)]
     specs = cc.bulk_specs(ctx, rng, leaves, ok, n_shapes=450 if q else len(leaves),
                           per_type_random=2 if q else 30, n_deep=25 if q else 400, max_count=3 if q else 5)
+    specs += cc.length_sweep_specs(rng, q)
     cc.run_and_judge(ctx, specs, "C01", "bulk")
     if not q or __import__("os").environ.get("VERIF_SELFTEST"):
         cc.selftest(ctx, "C01", specs)
